@@ -389,6 +389,29 @@ func vfsReadDir(dir string) ([]os.DirEntry, error) {
 	return out, nil
 }
 
+// vfsGlob supports the patterns the storage engine uses: one '*' in the last path element.
+func vfsGlob(pattern string) ([]string, error) {
+	star := strings.IndexByte(pattern, '*')
+	if star < 0 {
+		if vfsW().files[pattern] != nil {
+			return []string{pattern}, nil
+		}
+		return nil, nil
+	}
+	prefix, suffix := pattern[:star], pattern[star+1:]
+	if strings.ContainsAny(suffix, "*?[/") {
+		panic("vfs: unsupported glob pattern " + pattern)
+	}
+	var out []string
+	for n := range vfsW().files {
+		if len(n) >= len(prefix)+len(suffix) && strings.HasPrefix(n, prefix) && strings.HasSuffix(n, suffix) && !strings.Contains(n[len(prefix):], "/") {
+			out = append(out, n)
+		}
+	}
+	sort.Strings(out)
+	return out, nil
+}
+
 func vfsReadFile(name string) ([]byte, error) {
 	f := vfsW().files[name]
 	if f == nil {
